@@ -149,6 +149,9 @@ type Conn struct {
 	// Gate, when set, is called before every Write and before every Read that would
 	// block; the scheduler parks the goroutine there.
 	Gate func(point string)
+	// GateWritten, when set, is called after a successful Write, when the bytes are on the wire and before Write
+	// returns: a yield point for "the peer already has the request, the writer has not got any further yet"
+	GateWritten func()
 	// Fault injection: the FailRead-th Read / FailWrite-th Write (1-based) returns
 	// ErrInjected; MaxChunk limits the bytes returned per Read.
 	FailRead, FailWrite int
@@ -327,6 +330,9 @@ func (c *Conn) Write(p []byte) (int, error) {
 	}
 	if c.React != nil {
 		c.React(p)
+	}
+	if c.GateWritten != nil {
+		c.GateWritten()
 	}
 	return len(p), nil
 }
